@@ -4,6 +4,7 @@
 From Coq Require Import Reals Lra String List Psatz Nsatz Bool.
 From QV.lib Require Import C12_RealLib C12_Trig.
 From Gen12 Require Import Gen_Chi.
+From QV.model Require C12_Model.
 Import ListNotations.
 Open Scope R_scope.
 
@@ -131,3 +132,116 @@ Proof.
   repeat (destruct Hin as [Hin | Hin]; [injection Hin as <- <- <-; cbn [String.prefix]; cbv [Ascii.ascii_dec Ascii.ascii_rec Ascii.ascii_rect Bool.bool_dec bool_rec bool_rect sumbool_rec sumbool_rect eq_ind_r eq_ind eq_sym f_equal]; split; lra |]).
   contradiction.
 Qed.
+
+(* ================================================================================================
+   Round 3 additions.  (1) What polar -> Cartesian -> polar does OUTSIDE the principal domain: for
+   EVERY coefficient set the result describes the identical surface (chi_roundtrip_all), its
+   magnitudes are |C_nm|, its angles the representatives with m*phi in (-PI, PI] of the same
+   direction (roundtrip_general); isotropic terms are untouched.  (2) The symbol / alias / preset
+   tables read from the sources on this run are the tables of the alias-handler model. *)
+(* ------------------------------------------------------------------ equivalence OUTSIDE the principal domain *)
+Definition roundtrip (c : env) : env := cartesian_to_polar (polar_to_cartesian c).
+
+Lemma chi_roundtrip_all (c : env) (alpha phi lambda : R) :
+  lambda <> 0 ->
+  chi_polar (roundtrip c) alpha phi lambda = chi_polar c alpha phi lambda.
+Proof.
+  intros H. unfold roundtrip. rewrite chi_of_cartesian by exact H.
+  symmetry. apply polar_eq_cartesian. exact H.
+Qed.
+
+Lemma atan2_range (y x : R) : - PI < atan2 y x <= PI.
+Proof.
+  pose proof PI_RGT_0 as Hpi. pose proof (atan_bound (y / x)) as [Hlo Hhi].
+  unfold atan2.
+  destruct (Rlt_dec 0 x) as [Hx | Hx]; [lra |].
+  destruct (Rlt_dec x 0) as [Hx' | Hx'].
+  - destruct (Rle_dec 0 y) as [Hy | Hy].
+    + assert (Hq : y / x <= 0).
+      { unfold Rdiv. assert (/ x < 0) by now apply Rinv_lt_0_compat. nra. }
+      assert (atan (y / x) <= 0).
+      { destruct Hq as [Hq | Hq]; [left; rewrite <- atan_0; now apply atan_increasing | rewrite Hq, atan_0; lra]. }
+      lra.
+    + assert (Hq : 0 < y / x).
+      { unfold Rdiv. assert (/ x < 0) by now apply Rinv_lt_0_compat. nra. }
+      assert (0 < atan (y / x)) by (rewrite <- atan_0; now apply atan_increasing).
+      lra.
+  - destruct (Rlt_dec 0 y); [lra |]. destruct (Rlt_dec y 0); lra.
+Qed.
+
+Lemma sqrt_polar_abs (C t : R) : sqrt ((C * cos t) * (C * cos t) + (C * sin t) * (C * sin t)) = Rabs C.
+Proof.
+  replace (C * cos t * (C * cos t) + C * sin t * (C * sin t)) with (C²).
+  - apply sqrt_Rsqr_abs.
+  - pose proof (sin2_cos2 t) as H. unfold Rsqr in *.
+    replace (C * cos t * (C * cos t) + C * sin t * (C * sin t))
+      with (C * C * (sin t * sin t + cos t * cos t)) by ring.
+    rewrite H. ring.
+Qed.
+
+Ltac split_tr H := cbv [In ang_triples] in H; repeat (destruct H as [H | H]; [injection H as <- <- <- | ]); [.. | contradiction].
+
+Ltac fold_m :=
+  repeat match goal with
+         | |- context[?m * (atan2 ?y ?x / ?m)] => replace (m * (atan2 y x / m)) with (atan2 y x) by field
+         end.
+
+Lemma roundtrip_general (c : env) (C p : string) (m : R) :
+  In (C, p, m) ang_triples ->
+  roundtrip c C = Rabs (c C) /\
+  - PI < m * roundtrip c p <= PI /\
+  Rabs (c C) * cos (m * roundtrip c p) = c C * cos (m * c p) /\
+  Rabs (c C) * sin (m * roundtrip c p) = c C * sin (m * c p).
+Proof.
+  intros H. unfold roundtrip.
+  split_tr H; eval_tables; fold_m;
+    (split; [ match goal with |- sqrt ?r = Rabs (?c ?nm) =>
+                match r with context[cos ?t] =>
+                  replace r with ((c nm * cos t) * (c nm * cos t) + (c nm * sin t) * (c nm * sin t)) by ring;
+                  apply sqrt_polar_abs end end
+            | split; [ apply atan2_range | ] ]).
+  all: match goal with
+       | |- Rabs (?c ?nm) * cos (atan2 ?y ?x) = _ /\ _ =>
+         rewrite <- (sqrt_polar_abs (c nm) ltac:(match x with _ * cos ?t => exact t end));
+         match goal with |- sqrt ?r * _ = _ /\ _ => replace r with (x * x + y * y) by ring end;
+         exact (polar_atan2 x y)
+       end.
+Qed.
+
+Lemma roundtrip_iso (c : env) (s : string) : In s iso_names -> roundtrip c s = c s.
+Proof.
+  intros H. unfold roundtrip. cbv [In iso_names] in H.
+  repeat (destruct H as [<- | H]); [.. | contradiction]; eval_tables; reflexivity.
+Qed.
+
+(* ------------------------------------------------------------------ tables *)
+(* complex_probe.POLAR_SYMBOLS / POLAR_ALIASES, the copies local to
+   validators.validate_aberration_coefficients and the keys of ProbeBase.DEFAULT_PROBE_PARAMS, as
+   read from the sources on this run, are the tables of coq/model/C12_Model.v *)
+Definition same_pairs (a b : list (string * string)) : bool :=
+  let inb (p : string * string) (l : list (string * string)) :=
+    existsb (fun q => String.eqb (fst p) (fst q) && String.eqb (snd p) (snd q)) l in
+  forallb (fun p => inb p b) a && forallb (fun p => inb p a) b.
+
+(* compared as sets (a re-ordering of a table in the source is harmless); tables_closed below adds
+   that none of them has duplicates *)
+Lemma tables_tied :
+  same_set polar_symbols C12_Model.polar_symbols = true /\
+  same_pairs polar_aliases C12_Model.polar_aliases = true /\
+  same_set validators_polar_symbols C12_Model.polar_symbols = true /\
+  same_pairs validators_polar_aliases C12_Model.polar_aliases = true /\
+  same_set default_probe_keys C12_Model.default_probe_keys = true.
+Proof. repeat split; vm_compute; reflexivity. Qed.
+
+(* every alias target is a polar symbol; every preset of ABERRATION_PRESETS is a duplicate-free
+   sub-list of the 25 labels of preset "all" *)
+Definition mem_s (s : string) (l : list string) : bool := existsb (String.eqb s) l.
+Fixpoint nodup_s (l : list string) : bool :=
+  match l with [] => true | x :: t => negb (mem_s x t) && nodup_s t end.
+Lemma tables_closed :
+  forallb (fun kv => mem_s (snd kv) polar_symbols) polar_aliases = true /\
+  forallb (fun pr => forallb (fun l => mem_s l all_labels) (snd pr) && nodup_s (snd pr)) presets = true /\
+  nodup_s polar_symbols = true /\ nodup_s all_labels = true /\ nodup_s (map fst polar_aliases) = true /\
+  nodup_s validators_polar_symbols = true /\ nodup_s (map fst validators_polar_aliases) = true /\
+  nodup_s default_probe_keys = true.
+Proof. repeat split; vm_compute; reflexivity. Qed.
